@@ -3,8 +3,8 @@ package main
 import (
 	"encoding/json"
 	"fmt"
-	"os"
 	"go/types"
+	"os"
 	"sort"
 	"strings"
 
@@ -86,7 +86,6 @@ func scanSites(prog *ssa.Program, harnessFiles map[string]bool) []Site {
 	sort.Slice(out, func(i, j int) bool { return out[i].Key() < out[j].Key() })
 	return out
 }
-
 
 type siteList struct {
 	Sites []struct {
